@@ -489,6 +489,21 @@ def oracles_sync(op, S0, S1, out, hist, stats):
                             dkind = "%s%s->%s" % (type(b).__name__, "-empty" if b == "" and isinstance(b, str) else "", type(a).__name__)
                             v.append(viol("C09", "A2-default", op, "%s.%s default is %r, truth says %r" % (name, nme, a, b), dkind=dkind, **common))
                             break
+            # prose clause, judged independently of doctrans' own docstring parsers (A3 below is differential and cannot see
+            # prose that the truth's *parser* already loses): what the truth says about a parameter, the target says too
+            if names == truth["names"]:
+                tp, mp = resolver.interface_prose(truth["node"], op["truth"]), resolver.interface_prose(node, kind)
+                if tp is not None and mp is not None:
+                    stats["a2_prose_checked"] = stats.get("a2_prose_checked", 0) + 1
+                    for nme in names:
+                        want, have = resolver.norm_prose(tp.get(nme)), resolver.norm_prose(mp.get(nme))
+                        if want and want != have:
+                            b0 = _tree(S0.get(f))
+                            r0 = resolver.resolve(b0, path) if b0 is not None else None
+                            rewritten = r0 is None or not isinstance(r0["node"], NODE_TYPE[kind]) or resolver.norm_dump(r0["node"]) != resolver.norm_dump(node)
+                            if rewritten:
+                                v.append(viol("C09", "A2-prose", op, "%s.%s is described as %r, the truth says %r" % (name, nme, have, want), lost=not have, **common))
+                            break
             # A3 only where sync actually wrote the definition (F01: existing function-kind targets are never rewritten)
             b_tree0 = _tree(S0.get(f))
             rb0 = resolver.resolve(b_tree0, path) if b_tree0 is not None else None
